@@ -30,6 +30,13 @@ CLAIMED["C09"] = ("Bounded symbolic model checking of ItemsEqual and the per-typ
          "One property populated at a time (plus id and type). 'Different value' for item-valued properties means different ids/hrefs inside the value. Values nested deeper than one embedded level are outside the claim.",
          "7 C09")
 
+CLAIMED["C10"] = ("Bounded symbolic model checking of Recipients() of all 13 addressable types and of ItemCollectionDeduplication / removeFromAudience through the real IRI.Equals code: 3 (quick) / 4-5 (thorough) addressees whose id letter and letter case are symbolic (so 'same addressee' is decided by the solver), in five presentations (https, http, trailing slash, embedded actor, embedded object), distributed over to/cc/bto/bcc/audience/actor by choice, with nil entries and the public collection; compared with a reference de-duplication (first mention in scan order to, cc, bto, bcc, actor, audience; lists keep first mentions in order; nil entries untouched); Block activities: the blocked object is addressed nowhere afterwards and everybody else still is.",
+         "Addressee ids are <scheme>://h.ex/<letter>[/]; embedded objects always carry an id (id-less ones are outside the property's domain). Nothing is asserted about the audience list after the call.",
+         "7 C10")
+CLAIMED["C16"] = ("Bounded symbolic model checking of FlattenProperties / Flatten*Properties / FlattenItemCollection / FlattenToIRI: for Activity, IntransitiveActivity, Question, Object and Actor, every single-item position (actor, object, target, result, origin, instrument, attributedTo, replies, likes, shares) x shape (IRI, object with id, object without id, link, actor, activity) with symbolic id characters; addressing lists of 2 (quick) / 3 (thorough) members in five shapes; duplicates. Asserted: objects with an id become exactly that id, IRIs/links/id-less objects stay, every other field (generated field-by-field comparator over the current struct definition) is unchanged, flattening twice equals once.",
+         "Collections in single-item positions are outside the property ('non-collection object'). For duplicate members both element-wise and first-mention-kept results are accepted.",
+         "7 C16")
+
 NOT_YET = {}
 
 def main():
